@@ -253,10 +253,10 @@ fn result_unwrap_or_else() {
     let res = x.unwrap_or_else(|e| (e as u32) ^ k);
     match x {
         Ok(v) => {
-            assert!(res == v)
+            assert!(res == v);
         }
         Err(e) => {
-            assert!(res == (e as u32) ^ k)
+            assert!(res == (e as u32) ^ k);
         }
     }
 }
@@ -304,10 +304,10 @@ macro_rules! pow_harnesses {
             let next = b.checked_pow(e + 1);
             match b.checked_pow(e) {
                 Some(p) => {
-                    assert!(next == p.checked_mul(b))
+                    assert!(next == p.checked_mul(b));
                 }
                 None => {
-                    assert!(next.is_none())
+                    assert!(next.is_none());
                 }
             }
         }
